@@ -3,8 +3,10 @@
 Three layers, each verified against the real source:
  (P) transit.Connection consumer accounting (connectConsumer/_writeToConsumer/disconnectConsumer/
      recordReceived/connectionLost/writeToFile, FileConsumer.*): plain methods, ghost event trace;
- (R) cmd_receive.Receiver._transfer_data/_parse_offer/_close_transit/_establish_transit/_handle_text;
- (S) cmd_send.Sender._send_file/_handle_answer.
+ (R) cmd_receive.Receiver._transfer_data/_parse_offer/_close_transit/_establish_transit/_handle_text, and the top
+     level Receiver._go/_get_data/_handle_code/_build_transit/_parse_transit (normal return of _go == success reported);
+ (S) cmd_send.Sender._send_file/_handle_answer (file object and ZipStream), and (O) what is offered:
+     Sender._build_offer/_send_data/_handle_transit.
 (R) and (S) are @inlineCallbacks generators; `yield` is given meaning by props/deferred.py.  The
 deferred-result contract used for record_pipe.writeToFile at (R) is the statement proved at (P).
 Filesystem functions of the Receiver (_handle_file, _write_file, ...) are used through their C05 contracts.
@@ -511,8 +513,16 @@ R_CONTRACTS = [
                                 "bcall_arg('send_record', 0, 0) == json_bytes({'ack': 'ok', 'sha256': hexstr(datahash)})")]),
     Contract(f"{RECV}:Receiver._handle_text", props=[PROP], params={"them_d": "json", "w": "obj[Wormhole]"}, self_fields=R_SELF,
              raises={"KeyError": None, "TypeError": None, "IndexError": None},
-             internal_ensures=[("acks-the-message", "bcall_names() == ['send_message'] and bcall_arg('send_message', 0, 0) == "
-                                                    "json_bytes({'answer': {'message_ack': 'ok'}})")]),
+             internal_ensures=[("acks-the-message", "bcall_names() == ['print', 'send_message'] and bcall_arg('send_message', 0, 0) == "
+                                                    "json_bytes({'answer': {'message_ack': 'ok'}})"),
+                               ("the-text-is-printed-exactly-once-through-the-terminal-safe-escaping-to-stdout",
+                                "bcalls('print') == 1 and print_nargs(0) == 1 and "
+                                "bcall_arg('print', 0, 0) == py_repr(jget(them_d, 'message'))[1:-1] and "
+                                "print_file(0) is self.args.stdout")],
+             ensures_raise={e: [("nothing-printed-nothing-acked", "bcall_names() == []")]
+                            for e in ("KeyError", "TypeError", "IndexError")},
+             note="verified with print() as a recorded boundary call (regf_r_text) and repr() as an uninterpreted function of "
+                  "the value: what reaches the terminal is repr(message)[1:-1], once, on args.stdout, then the ack"),
     Contract(f"{RECV}:Receiver._parse_offer", props=[PROP], params={"them_d": "json", "w": "obj[Wormhole]"}, self_fields=R_SELF,
              requires=c05.CWD_OK, pre_hook=c05.bind_fs, raises={e: None for e in PO_EXC},
              modifies=["abs_destname", "xfersize"] + c05.FS_FIELDS,
@@ -535,14 +545,96 @@ R_CONTRACTS = [
                   "_close_transit/_establish_transit by the contracts above"),
 ]
 
+def fd_kind_hook(it, fr):
+    """_fd_to_send is what _build_offer returned: a file object, or (second case) the ZipStream of a directory offer"""
+    so = fr.locals["self"]
+    if it.ctx.choose([z3.BoolVal(True), z3.BoolVal(True)], "fd-kind") == 1:
+        zs = it.fresh("obj[ZipStream]", "zs")
+        cur = so.fields["_fd_to_send"]
+        so.fields["_fd_to_send"] = VOpt(cur.isnone, zs) if isinstance(cur, VOpt) else zs
+
+
 # ------------------------------------------------------------------ (S) cmd_send.Sender
 S_SELF = {"_transit_sender": "obj[Transit]", "_fd_to_send": "obj[File]", "_args": "obj[SArgs]", "_timing": "obj[Timing]"}
 SF_EXC = ["TransferError", "ValueError", "UnicodeDecodeError", "AssertionError"] + NET_EXC
 
+# ---- what the sender offers (Sender._build_offer) and the small plumbing functions
+WHAT = "realpath(pjoin(self._args.cwd, self._args.what))"
+BASE = "basename(normpath(pjoin(self._args.cwd, self._args.what)))"
+SO_SELF = {"_args": "obj[SArgs]", "_fs": "obj[GhostFS]"}
+BO_EXC = ["TransferError", "UnsendableFileError", "TypeError", "AssertionError", "OSError", "EOFError"]
+
+O_CONTRACTS = [
+    Contract(f"{SEND}:Sender._send_data", props=[PROP], params={"data": "json", "w": "obj[Wormhole]"}, self_fields=SO_SELF,
+             internal_ensures=[("sends-exactly-this-dict-once", "bcall_names() == ['send_message'] and "
+                                                                "bcall_arg('send_message', 0, 0) == json_bytes(data)")]),
+    Contract(f"{SEND}:Sender._handle_transit", props=[PROP], params={"receiver_transit": "json"},
+             self_fields={"_transit_sender": "obj[Transit]"}, raises={"AttributeError": None},
+             internal_ensures=[("hands-the-peers-hints-to-the-transit-object-and-nothing-else",
+                                "bcall_names() == ['add_connection_hints'] and "
+                                "implies(jhas(receiver_transit, 'hints-v1'), "
+                                "to_j(bcall_arg('add_connection_hints', 0, 0)) == jget(receiver_transit, 'hints-v1'))")],
+             ensures_raise={"AttributeError": [("nothing-done", "bcall_names() == []")]}),
+    Contract(f"{SEND}:Sender._build_offer", props=[PROP], params={}, self_fields=SO_SELF, pre_hook=c05.bind_fs,
+             raises={e: None for e in BO_EXC}, modifies=[],
+             ensures=[("nothing-consumed-yet-from-what-will-be-streamed", "result[1] is None or result[1]._read == b''")],
+             internal_ensures=[(n_, x_.replace("OFFER", "result[0]").replace("FD", "result[1]")) for n_, x_ in [
+                 ("exactly-one-kind-of-offer",
+                  "ite(jhas(OFFER, 'message'), 1, 0) + ite(jhas(OFFER, 'file'), 1, 0) + ite(jhas(OFFER, 'directory'), 1, 0) == 1"
+                  " and offer_keys(OFFER) == 1"),
+                 ("nothing-to-stream-exactly-for-a-text-offer", "(FD is None) == jhas(OFFER, 'message')"),
+                 # text: reproduced exactly - the message offered is the text the user gave
+                 ("text-offer-carries-the-users-text-unchanged",
+                  "implies(jhas(OFFER, 'message'), jget(OFFER, 'message') == to_j(users_text(self._args.text)))"),
+                 ("stdin-is-read-exactly-for-dash-and-the-prompt-only-without-text-and-file",
+                  "n_stdin() == ite(self._args.text is not None and self._args.text == '-', 1, 0) and n_typed() <= 1 and "
+                  "implies(n_typed() == 1, not self._args.what)"),
+                 ("text-is-never-dropped-in-favour-of-a-file",
+                  "implies(not jhas(OFFER, 'message'), self._args.text is None)"),
+                 # file: the size offered is the size of the very file that will be streamed, nothing read yet
+                 ("file-offer-names-the-basename-the-user-typed",
+                  "implies(jhas(OFFER, 'file'), jfield(OFFER, 'file', 'filename') == " + BASE + " and " + BASE + " != '')"),
+                 ("file-offer-size-is-the-size-of-the-file-that-is-opened",
+                  "implies(jhas(OFFER, 'file'), jfield(OFFER, 'file', 'filesize') == len(FD._content) and FD._read == b''"
+                  " and file_keys(OFFER, 'file') == 2)"),
+                 ("the-file-opened-for-reading-is-the-one-the-user-named-with-symlinks-resolved",
+                  "implies(jhas(OFFER, 'file'), FD.name == " + WHAT + " and FD.mode == 'rb' and FD._content == content_of(" + WHAT + ")"
+                  " and bcalls('open') == 1)"),
+                 ("only-the-named-path-is-opened-and-never-for-writing", "n_fs() == 0 and bcalls('open') <= 1"),
+                 # directory: the zip stream built here is what will be streamed, and its announced size is its length
+                 ("directory-offer-announces-the-length-of-the-zip-stream",
+                  "implies(jhas(OFFER, 'directory'), jfield(OFFER, 'directory', 'zipsize') == len(FD._stream) and "
+                  "jfield(OFFER, 'directory', 'dirname') == " + BASE + " and jfield(OFFER, 'directory', 'mode') == 'zipfile/deflated'"
+                  " and is_zipstream(FD) and FD._read == b'')"),
+                 ("the-tree-walked-is-the-directory-the-user-named",
+                  "implies(jhas(OFFER, 'directory'), bcalls('walk') == 1 and bcall_arg('walk', 0, 0) == " + WHAT + ")"),
+             ]],
+             loops={0: {"header": "for filepath in walk(what, preserve_empty=True, followlinks=True)",
+                        "modifies": [("local", "zs", "_stream"), ("local", "zs", "_entries")],
+                        "invariant": ["n_fs() == 0"],
+                        "body_ensures": [
+                            "iter_bcalls('add_path') <= 1 and iter_bcalls('open') == 0",
+                            # every walked path goes into the archive under its name relative to the directory sent ...
+                            "implies(iter_bcalls('add_path') == 1, iter_add_arg(0) == at_iter(_iter[_i]))",
+                            "implies(iter_bcalls('add_path') == 1, iter_add_kw('arcname') == relpath(at_iter(_iter[_i]), " + WHAT + "))",
+                            "implies(iter_bcalls('add_path') == 1, iter_add_kw('recurse') == False)",
+                            # ... and is only left out when it is unreadable and the user allowed that
+                            "implies(iter_bcalls('add_path') == 0, self._args.ignore_unsendable_files)"]}},
+             ensures_raise={e: [("nothing-written", "n_fs() == 0")] for e in BO_EXC},
+             note="text / file / directory branches and the block-device branch (a file offer whose size is the seek-to-end "
+                  "position).  File contents are a ghost function of the path (content_of); os.stat(p).st_size is its length"),
+]
+
 S_CONTRACTS = [
-    Contract(f"{SEND}:Sender._send_file", props=[PROP], params={}, self_fields=S_SELF,
-             requires=["self._fd_to_send._read == b''"], raises={e: None for e in SF_EXC},
+    Contract(f"{SEND}:Sender._send_file", props=[PROP], params={}, self_fields=S_SELF, pre_hook=fd_kind_hook,
+             requires=["self._fd_to_send._read == b''"], raises={e: None for e in SF_EXC}, modifies=["_fd_to_send"],
              internal_ensures=[
+                 ("a-directory-is-streamed-as-exactly-the-zip-stream-whose-length-was-offered",
+                  "implies(is_zipstream(old(self._fd_to_send)), self._fd_to_send._content == old(self._fd_to_send._stream) and "
+                  "filesize == len(old(self._fd_to_send._stream)) and bcalls('open_iterable') == 1 and "
+                  "bcall_arg('open_iterable', 0, 0) is old(self._fd_to_send))"),
+                 ("a-plain-file-is-streamed-as-it-is", "implies(not is_zipstream(old(self._fd_to_send)), "
+                                                      "self._fd_to_send is old(self._fd_to_send) and bcalls('open_iterable') == 0)"),
                  ("S1-success-only-on-an-explicit-ok", "jhas(ack, 'ack') and jget(ack, 'ack') == 'ok'"),
                  ("S1-a-hash-in-the-ack-must-be-the-hash-of-what-was-handed-to-the-pipe",
                   "imp(jhas(ack, 'sha256'), jget(ack, 'sha256') == hexstr(sha256_digest(record_pipe._written)))"),
@@ -554,16 +646,136 @@ S_CONTRACTS = [
              ensures_raise={"error.ConnectionClosed": [("not-success", "True")]},
              note="a lost ack (receive_record errback) or connection loss leaves through ConnectionClosed; a bad ack through TransferError"),
     Contract(f"{SEND}:Sender._handle_answer", props=[PROP], params={"them_answer": "json"},
-             self_fields=dict(S_SELF, _fd_to_send="opt[obj[File]]"),
+             self_fields=dict(S_SELF, _fd_to_send="opt[obj[File]]"), pre_hook=fd_kind_hook, modifies=["_fd_to_send"],
              requires=["self._fd_to_send is None or self._fd_to_send._read == b''"],
              raises={e: None for e in SF_EXC + ["KeyError", "TypeError", "AttributeError", "IndexError"]},
              internal_ensures=[
-                 ("text-needs-message-ack-ok", "implies(self._fd_to_send is None, jhas(them_answer, 'message_ack') and "
+                 ("text-needs-message-ack-ok", "implies(old(self._fd_to_send) is None, jhas(them_answer, 'message_ack') and "
                                                "jget(them_answer, 'message_ack') == 'ok' and call_seq() == [])"),
+                 ("a-text-transfer-has-nothing-to-stream-afterwards-either",
+                  "implies(old(self._fd_to_send) is None, self._fd_to_send is None)"),
                  ("file-needs-file-ack-ok-and-a-completed-send-file",
-                  "implies(self._fd_to_send is not None, jhas(them_answer, 'file_ack') and jget(them_answer, 'file_ack') == 'ok' "
+                  "implies(old(self._fd_to_send) is not None, jhas(them_answer, 'file_ack') and jget(them_answer, 'file_ack') == 'ok' "
                   "and call_seq() == ['_send_file'] and ret_seq() == ['_send_file'])")]),
 ]
+
+
+# ---- (R') what `wormhole receive` does between the welcome and the end of the transfer
+RG_SELF = dict(R_SELF, _transit_receiver="opt[obj[Transit]]", _reactor="obj[Reactor]", _tor="opt[obj[Tor]]")
+RGO_EXC = sorted(set(PO_EXC + ["TransferError", "KeyError", "TypeError", "AttributeError", "IndexError", "ValueError",
+                               "UnicodeDecodeError", "AssertionError", "WelcomeError", "WrongPasswordError", "WormholeError"])
+                 - {"RespondError"})
+GD_EXC = ["TransferError", "ValueError", "UnicodeDecodeError", "AssertionError", "WrongPasswordError", "WormholeError", "KeyError"]
+
+RG_CONTRACTS = [
+    Contract(f"{RECV}:Receiver._send_data", props=[PROP], params={"data": "json", "w": "obj[Wormhole]"}, self_fields=RG_SELF,
+             internal_ensures=[("sends-exactly-this-dict-once", "bcall_names() == ['send_message'] and "
+                                                                "bcall_arg('send_message', 0, 0) == json_bytes(data)")]),
+    Contract(f"{RECV}:Receiver._get_data", props=[PROP], params={"w": "obj[Wormhole]"}, self_fields=RG_SELF, returns="json",
+             raises={e: None for e in GD_EXC},
+             ensures=[("a-dict-without-an-error-report", "isinstance(result, dict) and not jhas(result, 'error')")],
+             internal_ensures=[("one-message-awaited", "bcall_names() == ['get_message']")],
+             note="a peer's {'error': ...} never comes back as data: TransferError"),
+    Contract(f"{RECV}:Receiver._handle_code", props=[PROP], params={"w": "obj[Wormhole]"}, self_fields=RG_SELF,
+             raises={"AssertionError": None, "WormholeError": None},
+             internal_ensures=[("exactly-one-way-of-getting-a-code-then-waits-for-it",
+                                "bcalls('set_code') + bcalls('allocate_code') + bcalls('input_code') == 1 and "
+                                "bcall_names()[-1] == 'get_code'")]),
+    Contract(f"{RECV}:Receiver._build_transit", props=[PROP], params={"w": "obj[Wormhole]", "sender_transit": "json"},
+             self_fields=RG_SELF, modifies=["_transit_receiver"], raises={"AttributeError": None, "WormholeError": None},
+             ensures=[("a-transit-receiver-exists", "self._transit_receiver is not None")],
+             internal_ensures=[("keyed-before-hints-and-our-hints-sent-back",
+                                "bcalls('set_transit_key') == 1 and bcalls('add_connection_hints') == 1 and "
+                                "ncalls('_send_data') == 1 and jhas(to_j(last_call_arg('_send_data', 1)), 'transit')")]),
+    Contract(f"{RECV}:Receiver._parse_transit", props=[PROP], params={"sender_transit": "json", "w": "obj[Wormhole]"},
+             self_fields=RG_SELF, modifies=["_transit_receiver"], raises={"AttributeError": None, "WormholeError": None},
+             ensures=[("a-transit-receiver-exists", "self._transit_receiver is not None"),
+                      ("an-existing-one-is-kept", "imp(old(self._transit_receiver) is not None, "
+                                                  "self._transit_receiver is old(self._transit_receiver))")],
+             internal_ensures=[("built-exactly-when-there-was-none",
+                                "ncalls('_build_transit') == ite(old(self._transit_receiver) is None, 1, 0)")]),
+    Contract(f"{RECV}:Receiver._go", props=[PROP], params={"w": "obj[Wormhole]"}, self_fields=RG_SELF,
+             requires=c05.CWD_OK, pre_hook=c05.bind_fs, raises={e: None for e in RGO_EXC},
+             modifies=["abs_destname", "xfersize", "_transit_receiver"] + c05.FS_FIELDS,
+             internal_ensures=[
+                 ("success-only-after-parse-offer-returned",
+                  "call_seq()[-1] == '_parse_offer' and ret_seq() == call_seq() and ncalls('_parse_offer') == 1"),
+                 ("the-offer-parsed-is-the-peers-offer", "to_j(last_call_arg('_parse_offer', 1)) == jget(them_d, 'offer')")],
+             ensures_raise={"TransferError": [
+                 ("a-refused-offer-is-reported-to-the-peer-and-nothing-else-is-done",
+                  "implies(n_refusals_handled() >= 1, call_seq()[-1] == '_send_data' and "
+                  "call_seq()[-2] == '_parse_offer' and jhas(to_j(last_call_arg('_send_data', 1)), 'error'))")]},
+             loops={0: {"header": "True", "modifies": [("self", "_transit_receiver")],
+                        "invariant": ["ncalls('_parse_offer') == 0 and ret_seq() == call_seq()"] + c05.CWD_OK}},
+             note="normal return == `wormhole receive` reports success: only after the one _parse_offer (by its contract above) "
+                  "returned; RespondError never escapes: the peer is told, then TransferError"),
+]
+
+
+def regf_rg():
+    reg = regf_r()
+    install_offer_specs(reg)
+    reg.class_fields["Receiver"] = dict(RG_SELF)
+    reg.class_fields["Args"] = dict(reg.class_fields["Args"], code="opt[str]", zeromode="bool", allocate="bool", code_length="int",
+                                    verify="bool", transit_helper="str", listen="bool", relay_url="str")
+    reg.class_fields["DelayedCall"] = {"called": "bool"}
+    reg.boundary_returns["Reactor.callLater"] = "obj[DelayedCall]"
+    reg.boundary_returns["Wormhole.derive_key"] = "bytes"
+    reg.boundary_returns["Wormhole.input_code"] = "obj[InputHelper]"
+    reg.boundary_returns["Transit.get_connection_abilities"] = "json"
+    em = reg.ext_models
+    em["new:TransitReceiver"] = lambda it, klass, args, kw: VObj("Transit", {})
+    for g in ("KEY_TIMER", "VERIFY_TIMER"):
+        em["global:" + RECV + ":" + g] = lambda it: it.fresh("real", "timer")
+    em["global:wormhole/__init__.py:__version__"] = lambda it: it.fresh("str", "version")
+
+    def response_of(it, o):
+        """r.response of a caught RespondError (only the handler for a refused offer reads it): recorded"""
+        it.ctx.event("refusal-handled", o)
+        return it.fresh("str", "response")
+
+    for e in ("RespondError", "TransferRejectedError"):
+        em[f"attr:{e}.response"] = response_of
+    reg.spec_funcs["n_refusals_handled"] = lambda it: VInt(1 if any(e[0] == "refusal-handled" for e in it.ctx.trace) else 0)
+
+    def handle_welcome(it, args, kwargs, fr):
+        if it.ctx.choose([z3.BoolVal(True), z3.BoolVal(True)], "handle_welcome") == 1:
+            it.raise_("WelcomeError", VStr("server says no"))
+        return NONE
+
+    reg.func_models["wormhole/cli/welcome.py:handle_welcome"] = handle_welcome
+    reg.func_models["wormhole/_rlcompleter.py:input_with_completion"] = \
+        lambda it, args, kwargs, fr: deferred.make_deferred("input_with_completion")
+
+    def fires_with(ty, label, *errors):
+        def h(it, d, fr):
+            if errors:
+                k = it.ctx.choose([z3.BoolVal(True)] * (1 + len(errors)), label)
+                if k > 0:
+                    it.raise_(errors[k - 1])
+            return it.fresh(ty, label) if ty else NONE
+        return h
+
+    for meth, ty, errs in (("get_welcome", "json", ("WormholeError",)), ("get_code", "str", ("WormholeError",)),
+                           ("get_unverified_key", "bytes", ("WormholeError",)),
+                           ("get_verifier", "bytes", ("WrongPasswordError", "WormholeError")),
+                           ("get_message", "bytes", ("WrongPasswordError", "WormholeError"))):
+        reg.boundary["Wormhole." + meth] = deferred.producing("Wormhole." + meth)
+        reg.deferred_results["Wormhole." + meth] = fires_with(ty, meth, *errs)
+    reg.boundary["Transit.get_connection_hints"] = deferred.producing("Transit.get_connection_hints")
+    reg.deferred_results["Transit.get_connection_hints"] = fires_with("json", "hints")
+    reg.deferred_results["input_with_completion"] = fires_with("bool", "used_completion", "WormholeError")
+    for e in ("WrongPasswordError", "WormholeError", "WelcomeError"):
+        reg.exc_bases.setdefault(e, "Exception")
+    for c in RG_CONTRACTS:
+        reg.contracts[c.target] = c
+    # applied at a call site a contract contributes its `ensures` only (see regf_go)
+    for k, c in list(reg.contracts.items()):
+        if c.ensures_raise:
+            c2 = copy.copy(c)
+            c2.ensures_raise = {}
+            reg.contracts[k] = c2
+    return reg
 
 
 def regf_r():
@@ -589,6 +801,290 @@ def regf_r():
     return reg
 
 
+def z_repr(jz):
+    """repr(v): an uninterpreted function of the (JSON) value; what it escapes is Python's business"""
+    return uf("py_repr", J, StringS)(jz)
+
+
+def install_print(reg):
+    """print(...) as a recorded boundary call instead of dropped syntax, repr() as an uninterpreted function
+    (only for the functions whose clauses are about what is shown to the user)"""
+    reg.drop_calls = [d for d in reg.drop_calls if d != "print"]
+
+    def b_print(it, args, kw):
+        it.ctx.event("bcall", "builtins", "print", [it.force(a) for a in args], dict(kw))
+        return NONE
+
+    def b_repr(it, args, kw):
+        v = it.force(args[0])
+        return VStr(z_repr(to_json(v)), "str")
+
+    reg.ext_models["builtins.print"] = b_print
+    reg.ext_models["builtins.repr"] = b_repr
+    sf = reg.spec_funcs
+    sf["py_repr"] = lambda it, v: VStr(z_repr(to_json(it.force(v))), "str")
+
+    def prints(it):
+        return [e[1] for e in it.ctx.trace if e[0] == "bcall" and e[1][1] == "print"]
+
+    def print_file(it, k):
+        es = prints(it)
+        k = it.concrete(k)
+        return es[k][3].get("file", NONE) if k < len(es) else NONE
+
+    sf["print_file"] = print_file
+    sf["print_nargs"] = lambda it, k: VInt(len(prints(it)[it.concrete(k)][2]) if it.concrete(k) < len(prints(it)) else -1)
+
+
+def regf_r_text():
+    reg = regf_r()
+    install_print(reg)
+    return reg
+
+
+def install_zipstream(reg):
+    """zipstream.ng.ZipStream(sized=True) as a boundary object with ghost fields: _stream = the bytes the finished stream
+    yields, _read = what has been consumed from it so far, _entries = its info_list().  len(zs) is the length of _stream
+    (what `sized` promises); open_iterable(zs, 'rb') is a file object over exactly that stream"""
+    from pyvc import models as M
+    reg.class_fields["ZipStream"] = {"_stream": "bytes", "_read": "bytes", "_entries": "seq[json]"}
+    reg.exc_bases.setdefault("ZipStream", "zipstream.ng.ZipStream")
+
+    def b_len(it, args, kw):
+        v = it.force(args[0])
+        if isinstance(v, VObj) and v.cls == "ZipStream":
+            return VInt(z3.Length(v.fields["_stream"].z))
+        return M.b_len(it, args, kw, None)
+
+    reg.ext_models["builtins.len"] = b_len
+
+    def open_iterable(it, args, kw):
+        zs = it.force(args[0])
+        mode = it.concrete(it.force(args[1])) if len(args) > 1 else "r"
+        if not (isinstance(zs, VObj) and zs.cls == "ZipStream" and mode == "rb"):
+            raise OutOfSubset("open_iterable of something that is not a ZipStream opened 'rb'")
+        it.ctx.event("bcall", "iterableio", "open_iterable", [zs, VStr(mode)], {})
+        return VObj("File", {"name": VStr(""), "mode": VStr(mode), "_content": zs.fields["_stream"], "_read": zs.fields["_read"]})
+
+    reg.ext_models["iterableio.open_iterable"] = open_iterable
+    reg.spec_funcs["is_zipstream"] = lambda it, v: VBool(isinstance(it.force(v), VObj) and it.force(v).cls == "ZipStream")
+
+
+def install_offer_models(reg):
+    """library models for Sender._build_offer: POSIX path functions and the ghost filesystem of C05, file contents as a
+    ghost function of the path, zipstream.ng as a boundary object"""
+    from pyvc import models as M
+    c05.install_models(reg)
+    c05.install_spec(reg)
+    em, sf = reg.ext_models, reg.spec_funcs
+    reg.class_fields["GhostFS"] = {"exists": "set[str]", "isdir": "set[str]", "isfile": "set[str]"}
+    for name in ("normpath", "realpath"):
+        em["os.path." + name] = (lambda nm: lambda it, args, kw: VStr(uf("posix_" + nm, StringS, StringS)(c05.path_arg(it, args[0]).z), "str"))(name)
+        sf[name] = (lambda nm: lambda it, p_: VStr(uf("posix_" + nm, StringS, StringS)(sview(p_).z), "str"))(name)
+    relp = lambda a, b: uf("posix_relpath", StringS, StringS, StringS)(a, b)     # noqa: E731
+    em["os.path.relpath"] = lambda it, args, kw: VStr(relp(c05.path_arg(it, args[0]).z, c05.path_arg(it, args[1]).z), "str")
+    sf["relpath"] = lambda it, a, b: VStr(relp(sview(a).z, sview(b).z), "str")
+    content = uf("fs_content", StringS, StringS)
+    sf["content_of"] = lambda it, p_: VStr(content(sview(p_).z), "bytes")
+
+    def os_stat(it, args, kw):
+        p_ = c05.path_arg(it, args[0])
+        c05.may_fail(it, "os.stat")
+        return VObj("stat_result", {"st_size": VInt(z3.Length(content(p_.z))), "st_mode": it.fresh("int", "st_mode")})
+
+    em["os.stat"] = os_stat
+    em["stat.S_ISBLK"] = lambda it, args, kw: it.fresh("bool", "is_block_device")
+    c05_open = em["builtins.open"]
+
+    def b_open(it, args, kw):
+        f = c05_open(it, args, kw)
+        mode = it.concrete(f.fields["mode"])
+        if not any(ch in mode for ch in "wax+"):
+            it.ctx.event("bcall", "fs", "open", [f.fields["name"], f.fields["mode"]], {})
+            f.fields["_content"] = VStr(content(f.fields["name"].z), "bytes")
+            f.fields["_read"] = VStr(b"")
+        return f
+
+    em["builtins.open"] = b_open
+
+    def file_seek(it, recv, meth, args, kwargs, fr):
+        off = it.force(args[0])
+        whence = it.concrete(it.force(args[1])) if len(args) > 1 else 0
+        if whence == 2 and it.concrete(off) == 0:
+            return VInt(z3.Length(recv.fields["_content"].z))
+        return off
+
+    reg.boundary["File.seek"] = file_seek
+
+    def stdin_read(it, args, kw):
+        t = it.fresh("str", "stdin_text")
+        it.ctx.event("stdin-read", t)
+        return t
+
+    em["sys.stdin.read"] = stdin_read
+    evs = lambda it, kind: [e[1][0] for e in it.ctx.trace if e[0] == kind]     # noqa: E731
+    sf["n_stdin"] = lambda it: VInt(len(evs(it, "stdin-read")))
+    sf["stdin_text"] = lambda it, k: evs(it, "stdin-read")[it.concrete(k)] if it.concrete(k) < len(evs(it, "stdin-read")) else NONE
+    sf["n_typed"] = lambda it: VInt(len(evs(it, "input-line")))
+    sf["typed"] = lambda it, k: evs(it, "input-line")[it.concrete(k)] if it.concrete(k) < len(evs(it, "input-line")) else NONE
+
+    # the text the user gave: what was typed at the prompt, else what was read from stdin, else --text
+    sf["users_text"] = lambda it, opt: (evs(it, "input-line") or evs(it, "stdin-read") or [it.force(opt)])[0]
+
+    # ---- zipstream.ng
+    install_zipstream(reg)
+
+    def new_zipstream(it, args, kw):
+        it.ctx.event("bcall", "zipstream", "ZipStream", list(args), dict(kw))
+        zs = it.fresh("obj[ZipStream]", "zs")
+        zs.fields["_read"] = VStr(b"")          # a new stream: nothing consumed yet
+        return zs
+
+    em["zipstream.ng.ZipStream"] = new_zipstream
+
+    def zs_walk(it, args, kw):
+        it.ctx.event("bcall", "zipstream", "walk", [it.force(a) for a in args], dict(kw))
+        return it.fresh("seq[str]", "walked")
+
+    em["zipstream.ng.walk"] = zs_walk
+
+    def zs_add_path(it, recv, meth, args, kwargs, fr):
+        """stats the path (may fail with OSError); what the stream will be changes with every member added"""
+        c05.may_fail(it, "zs.add_path")
+        it.ctx.event("bcall", "ZipStream", "add_path", [it.force(a) for a in args], {k: it.force(v) for k, v in kwargs.items()})
+        recv.fields["_stream"] = it.fresh("bytes", "zip_stream")
+        recv.fields["_entries"] = it.fresh("seq[json]", "zip_entries")
+        return NONE
+
+    reg.boundary["ZipStream.add_path"] = zs_add_path
+
+    def zs_info_list(it, recv, meth, args, kwargs, fr):
+        r = recv.fields["_entries"]
+        r = VSeq(r.z, r.elem)
+        r.zs_entries = True
+        return r
+
+    reg.boundary["ZipStream.info_list"] = zs_info_list
+
+
+    def entries_comprehension(it, e, g, coll, fr):
+        """[x["size"] for x in zs.info_list() if not x["is_dir"]] and sum() of it: NOT under contract - some list of ints
+        / some int (numfiles and numbytes of a directory offer are informational; nothing is claimed about them)"""
+        from pyvc.interp import VSeqResult
+        if isinstance(coll, VSeq) and str(coll.elem) == str(parse_type("json")) and getattr(coll, "zs_entries", False):
+            return VSeqResult(z3.Const(it.ctx.namer("filesizes"), z3.SeqSort(IntS)), parse_type("int"))
+        return None
+
+    em["comprehension"] = entries_comprehension
+
+    def b_sum(it, args, kw):
+        v = it.force(args[0])
+        if isinstance(v, VSeq):
+            return it.fresh("int", "sum")
+        return M.b_sum(it, args, kw, None)
+
+    em["builtins.sum"] = b_sum
+    em["os.access"] = lambda it, args, kw: it.fresh("bool", "readable")
+    em["os.strerror"] = lambda it, args, kw: it.fresh("str", "strerror")
+    reg.ext_consts["os.R_OK"] = 4
+    reg.ext_consts["errno.EACCES"] = 13
+    for e in ("OSError", "PermissionError"):
+        em[f"attr:{e}.strerror"] = lambda it, o: it.fresh("str", "strerror")
+    sf["to_j"] = lambda it, v: VJson(to_json(it.force(v)))
+
+    asj = lambda it, v: v if isinstance(v, VJson) else VJson(to_json(it.force(v)))      # noqa: E731
+    for nm in ("jhas", "jget", "jfield"):
+        sf[nm] = (lambda f: lambda it, d, *ks: f(it, asj(it, d), *ks))(sf[nm])
+
+    def nkeys(it, d, *path):
+        """number of keys of a dict the function built itself (concrete keys)"""
+        d = it.force(d)
+        for k in path:
+            d = it.force(d.d[it.concrete(k)]) if isinstance(d, VDict) and it.concrete(k) in d.d else None
+        return VInt(len(d.d) if isinstance(d, VDict) else -1)
+
+    sf["offer_keys"] = nkeys
+    sf["file_keys"] = nkeys
+
+    def iter_evs(it, name):
+        tr = it.ctx.trace
+        start = max([k for k, e in enumerate(tr) if e[0] == "loop-body-start"] + [-1])
+        name = name if isinstance(name, str) else it.concrete(name)
+        return [e[1] for e in tr[start + 1:] if e[0] == "bcall" and e[1][1] == name]
+
+    sf["iter_bcalls"] = lambda it, name: VInt(len(iter_evs(it, name)))
+    sf["iter_add_arg"] = lambda it, i: iter_evs(it, "add_path")[0][2][it.concrete(i)] if iter_evs(it, "add_path") else NONE
+    sf["iter_add_kw"] = lambda it, k: iter_evs(it, "add_path")[0][3].get(it.concrete(k), NONE) if iter_evs(it, "add_path") else NONE
+
+
+def regf_o():
+    reg = make_registry()
+    install_trace_funcs(reg)
+    register_classes(reg, ["wormhole/errors.py", SEND])
+    install_common(reg)
+    install_offer_models(reg)
+    reg.class_fields["SArgs"] = {"text": "opt[str]", "what": "opt[str]", "cwd": "str", "stderr": "obj[Stream]",
+                                 "ignore_unsendable_files": "bool", "hide_progress": "bool"}
+    reg.class_fields["File"] = {"name": "str", "mode": "str", "_read": "bytes", "_content": "bytes"}
+    for c in UTIL_ASSUMED + O_CONTRACTS:
+        reg.contracts[c.target] = c
+    return reg
+
+
+# ---- Sender._check_verifier (the --verify prompt)
+G_SELF = {"_args": "obj[SArgs]", "_timing": "obj[Timing]"}
+
+G_CONTRACTS = [
+    Contract(f"{SEND}:Sender._check_verifier", props=[PROP], params={"w": "obj[Wormhole]", "verifier_bytes": "bytes"},
+             self_fields=G_SELF, raises={"TransferError": None, "EOFError": None},
+             internal_ensures=[("returns-only-after-a-yes-and-sends-nothing", "bcalls('send_message') == 0 and n_typed() >= 1 and "
+                                                                            "lower(typed(-1)) == 'yes'")],
+             ensures_raise={"TransferError": [("a-no-tells-the-peer-before-giving-up",
+                                               "bcalls('send_message') == 1 and lower(typed(-1)) == 'no' and "
+                                               "jhas(sent_dict(0), 'error')")]},
+             loops={0: {"header": "True", "invariant": ["bcalls('send_message') == 0"]}}),
+]
+
+
+def regf_go():
+    reg = regf_s()
+    install_offer_specs(reg)
+    reg.ext_models["builtins.input"] = c05_input
+    reg.exc_bases.setdefault("EOFError", "Exception")
+    for c in G_CONTRACTS:
+        reg.contracts[c.target] = c
+    return reg
+
+
+def c05_input(it, args, kw):
+    c05.may_fail(it, "input", "EOFError")
+    t = it.fresh("str", "typed")
+    it.ctx.event("input-line", t)
+    return t
+
+
+def install_offer_specs(reg):
+    sf = reg.spec_funcs
+    evs = lambda it, kind: [e[1][0] for e in it.ctx.trace if e[0] == kind]     # noqa: E731
+    sf["n_typed"] = lambda it: VInt(len(evs(it, "input-line")))
+    sf["typed"] = lambda it, k: evs(it, "input-line")[it.concrete(k)] if -len(evs(it, "input-line")) <= it.concrete(k) < len(evs(it, "input-line")) else NONE
+    sf["to_j"] = lambda it, v: VJson(to_json(it.force(v)))
+    sf["ncalls"] = lambda it, suffix: VInt(sum(1 for e in it.ctx.trace if e[0] == "call" and e[1][0].endswith(it.concrete(suffix))))
+
+    def last_call_arg(it, suffix, i):
+        es = [e for e in it.ctx.trace if e[0] == "call" and e[1][0].endswith(it.concrete(suffix))]
+        return es[-1][1][1][it.concrete(i)] if es else NONE
+
+    sf["last_call_arg"] = last_call_arg
+
+    def sent_dict(it, k):
+        """the dict handed to dict_to_bytes for the k-th send_message (assumed contract: result == json_bytes(d))"""
+        es = [e for e in it.ctx.trace if e[0] == "call" and e[1][0].endswith("dict_to_bytes")]
+        return VJson(to_json(it.force(es[it.concrete(k)][1][1][0]))) if it.concrete(k) < len(es) else NONE
+
+    sf["sent_dict"] = sent_dict
+
+
 def regf_s():
     reg = make_registry()
     install_trace_funcs(reg)
@@ -596,6 +1092,7 @@ def regf_s():
     install_rs(reg)
     reg.class_fields["File"] = {"name": "str", "_read": "bytes", "_content": "bytes"}
     reg.class_fields["SArgs"] = {"hide_progress": "bool", "stderr": "obj[Stream]"}
+    install_zipstream(reg)
     for c in S_CONTRACTS:
         reg.contracts[c.target] = c
     return reg
@@ -629,8 +1126,11 @@ def tasks():
     for c in P_CONTRACTS:
         inl = c.target.endswith(("connectConsumer", "recordReceived"))
         out.append(ContractTask(c, regf_p_all if c.target.endswith("writeToFile") else regf_p_w2c if inl else regf_p))
-    out += [ContractTask(c, regf_r) for c in R_CONTRACTS]
+    out += [ContractTask(c, regf_r_text if c.target.endswith("Receiver._handle_text") else regf_r) for c in R_CONTRACTS]
+    out += [ContractTask(c, regf_rg) for c in RG_CONTRACTS]
+    out += [ContractTask(c, regf_o) for c in O_CONTRACTS]
     out += [ContractTask(c, regf_s) for c in S_CONTRACTS]
+    out += [ContractTask(c, regf_go) for c in G_CONTRACTS]
     out.append(FuncTask("stable-fields", stable_fields_task, True, "frame"))
     # byte-exactness also rests on (a) the download file being opened fresh (truncating "wb") at destination+".tmp"
     # - C05's _handle_file/_handle_directory contracts - and (b) the record pipe rejecting replayed / reordered
@@ -643,7 +1143,7 @@ def tasks():
     return out
 
 
-CONTRACTS = P_CONTRACTS + R_CONTRACTS + S_CONTRACTS
+CONTRACTS = P_CONTRACTS + R_CONTRACTS + RG_CONTRACTS + O_CONTRACTS + S_CONTRACTS + G_CONTRACTS
 TRUSTED = [
     "z3/cvc5", "pyvc semantics of the Python subset (DESIGN 2.2)",
     "inlineCallbacks (props/deferred.py): a generator is resumed exactly once per fired Deferred with its result, or the "
@@ -666,12 +1166,40 @@ TRUSTED = [
     "file objects: f.write(b) appends b to the ghost content f._written; RecordPipe.write(b) appends to pipe._written (ghost)",
     "assert statements are executed (no python -O): `assert received == self.xfersize` is what rejects surplus bytes",
     "the C05 contracts of Receiver._handle_file/_handle_directory/_write_file/_write_directory (verified by ./check C05)",
+    "Receiver._go and its helpers (regf_rg): deferred-result contracts w.get_welcome/get_code/get_unverified_key/get_verifier/"
+    "get_message fire with some value of the documented type or fail (WormholeError, WrongPasswordError); "
+    "input_with_completion fires with some bool; TransitReceiver(...) is a boundary object; handle_welcome returns or raises "
+    "WelcomeError; KEY_TIMER/VERIFY_TIMER/__version__ are some float/float/str; RespondError.response is some str (also for TransferRejectedError); "
+    "reactor.callLater returns a DelayedCall with a bool `called`",
+    "a contract applied at a call site contributes its `ensures` only: trace clauses of the callee (ensures_raise) are proved "
+    "on the callee and are not assumed of the caller's trace (regf_go / regf_rg strip them from the applied copies)",
+    "print() in Receiver._handle_text is a recorded boundary call (elsewhere it is dropped syntax); repr(v) is an uninterpreted "
+    "function of the value (what Python escapes is not modelled, only that the text shown is repr(message)[1:-1])",
+    "Sender._build_offer: POSIX path model of C05 (join by definition, basename axioms) plus uninterpreted os.path.normpath / "
+    "realpath / relpath; ghost filesystem of C05 for exists/isfile/isdir; file contents are a ghost function of the path "
+    "(content_of): os.stat(p).st_size is its length, open(p, 'rb') reads it, f.seek(0, 2) returns its length (no other process "
+    "changes the file between stat/open and the transfer); os.stat/open/os.access/zs.add_path may fail with OSError; "
+    "sys.stdin.read() / input() return some str (input may raise EOFError); stat.S_ISBLK is some bool",
+    "zipstream.ng (assumed): ZipStream(sized=True) is a boundary object with ghost fields _stream (the bytes the finished "
+    "stream yields), _read (consumed so far; empty for a new stream) and _entries; add_path(path, arcname=, recurse=) changes "
+    "the stream (havoc) or raises OSError; len(zs) == len(zs._stream) ('sized'); walk(top, ...) yields some list of paths; "
+    "iterableio.open_iterable(zs, 'rb') is a file object whose content is exactly zs._stream",
 ]
 ASSUMPTIONS = [
-    "records arrive unmodified and in order (C06), sha256 collision resistance, zipfile/zipstream content round trip and "
-    "repr() escaping of text messages are outside this check",
+    "records arrive unmodified and in order (C06), sha256 collision resistance, zipfile/zipstream content round trip (what "
+    "bytes a ZipStream produces for a tree, what ZipFile.extract writes) and what repr() escapes are outside this check",
     "FileConsumer/consumer identity: Connection.connectConsumer is verified for FileConsumer consumers",
-    "Sender._send_file is verified for a plain file object in _fd_to_send (the ZipStream branch `len(zs)`/open_iterable is not modelled)",
+    "Sender._send_file / _handle_answer are verified for both kinds of _fd_to_send that _build_offer returns: a file object and a "
+    "ZipStream (pre-state fork fd-kind); Sender._build_offer is verified on its own - that Sender._go stores its second result "
+    "in _fd_to_send and sends its first result as the offer is not under contract (see Sender._go below)",
+    "not under contract: Sender._go / go (a contract for _go was written - offer sent == first result of _build_offer, "
+    "_fd_to_send == its second result, normal return only after _handle_answer returned - but the function has too many "
+    "independent option forks (verify/zeromode/code/qr/tty/timer/listen x offer kinds x message shapes) for an engine without "
+    "state merging: path enumeration alone did not finish in 10 minutes); Sender._check_verifier is under contract",
+    "not under contract: numfiles / numbytes of a directory offer (the comprehension over zs.info_list() and sum() of a symbolic "
+    "list are outside the engine's subset: both values are arbitrary here; the receiver uses them for its free-space message "
+    "only); Receiver.go and Sender.go (the close-and-return wrappers around _go: closures handed to addCallbacks), "
+    "Receiver._send_permission / _show_verifier / _msg on their own (inlined into their callers)",
     "a JSON float xfersize equal to the integer byte count is treated by the engine as unequal (the real code succeeds "
     "there; the claims are unaffected)",
     "negative `expected`: connectConsumer then fires on the first record; the receiver's assert rejects it",
